@@ -17,4 +17,5 @@ import Props.C03
 #print axioms SpyneModel.Props.C03.documented_soft_partial
 #print axioms SpyneModel.Props.C03.same_class_arguments_soft
 #print axioms SpyneModel.Props.C03.return_exact
+#print axioms SpyneModel.Props.C03.out_header_datetime_same_instant
 #print axioms SpyneModel.Props.C03.return_bytes_exact
